@@ -33,6 +33,32 @@ theorem consume_frame (g : Cfg) (s : St) (a : Ans) :
     simp only [closeWith]
     split <;> simp_all
 
+theorem session_hup (s : St) (a : Addr) : (session s a).2.hup = s.hup := by
+  unfold session; split <;> simp
+
+theorem consume_hup (g : Cfg) (s : St) (a : Ans) : (consume g s a).2.hup = s.hup := by
+  unfold consume
+  cases a with
+  | data src b =>
+    cases src with
+    | none => dsimp only; split <;> split <;> simp
+    | some x => dsimp only; split <;> split <;> simp [session_hup]
+  | zero => simp
+  | eagain => simp
+  | eintr => simp
+  | closed => simp
+  | err => simp only [closeWith]; split <;> simp
+
+theorem rearm_hup (s : St) : (rearm s).hup = s.hup := by unfold rearm; split <;> simp
+theorem closeHang_hup (s : St) : (closeHang s).hup = s.hup := by unfold closeHang; split <;> simp
+
+theorem hupOk_closed (g : Cfg) (hup eof rerr : Bool) (task : TS) (re : Nat) (c c' : Bool)
+    (h : HupOk g hup eof rerr task re c) (hc : c' = c ∨ c' = true) : HupOk g hup eof rerr task re c' := by
+  rcases hc with hc | hc
+  · rw [hc]; exact h
+  · subst hc
+    exact ⟨h.sync, h.backed, h.flag, fun _ h' => (by cases h')⟩
+
 theorem consume_next (g : Cfg) (s : St) (a : Ans) :
     ((consume g s a).1 = .again ↔ a.again g = true) ∧
     ((consume g s a).1 = .dead ↔ (a = .err ∨ a = .closed)) := by
@@ -127,7 +153,7 @@ theorem owes_of_task (g : Cfg) (ps ps' : PS) (task : TS) (re : Nat)
   · exact Or.inr (Or.inr (Or.inr (Or.inr h)))
 
 theorem core_pstep (g : Cfg) (s s' : St) (h : Core g s) (hs : pstep g s = some s') : Core g s' := by
-  obtain ⟨hk, hg, hp, hl⟩ := h
+  obtain ⟨hk, hg, hp, hl, hh⟩ := h
   unfold pstep at hs
   split at hs
   · cases hs
@@ -154,8 +180,14 @@ theorem core_pstep (g : Cfg) (s s' : St) (h : Core g s) (hs : pstep g s = some s
       rcases c12 with h | ⟨_, h⟩
       · left; rw [h, f1]
       · right; exact h
+    have hhup : s2.hup = s.hup := by
+      have := consume_hup g s1 a; rw [hc] at this; simp only at this
+      have h2 := doRead_hup g s; rw [hd] at h2; simp only at h2
+      rw [this, h2]
     simp only [setPs]
-    refine ⟨?_, ?_, ?_, ?_⟩
+    refine ⟨?_, ?_, ?_, ?_, ?_⟩
+    rotate_right
+    · rw [hhup, c1, f15, f16, c4, c2, f5, f3]; exact hupOk_closed g _ _ _ _ _ _ _ hh hcl
     · rw [c1]; exact q3
     · rw [c4, c2, c5, f5, f3, f13]; exact gateOk_closed g _ _ _ _ _ hg hcl
     · -- PsOk of the next position
@@ -239,7 +271,15 @@ theorem core_pstep (g : Cfg) (s s' : St) (h : Core g s) (hs : pstep g s = some s
       rcases k5 with ⟨_, h⟩ | ⟨_, h⟩
       · exact Or.inr h
       · exact Or.inl (by rw [h, m1])
-    refine ⟨?_, ?_, ?_, ?_⟩
+    have hhup2 : s2.hup = s.hup ∧ s2.k.eof = s.k.eof ∧ s2.k.rerr = s.k.rerr := by
+      have e3 : finish g s fl = s2 := e2
+      have : (finish g s fl).hup = s.hup ∧ (finish g s fl).k.eof = s.k.eof ∧ (finish g s fl).k.rerr = s.k.rerr := by
+        unfold finish rearm closeHang; dsimp only; repeat' split
+        all_goals simp
+      rw [e3] at this; exact this
+    refine ⟨?_, ?_, ?_, ?_, ?_⟩
+    rotate_right
+    · rw [hhup2.1, hhup2.2.1, hhup2.2.2, k3, k2, m3, m2]; exact hupOk_closed g _ _ _ _ _ _ _ hh hcl
     · rw [k1, m5, m6, m7]; exact hk
     · rw [k3, k2, k4, m3, m2, m4]; exact gateOk_closed g _ _ _ _ _ hg hcl
     · exact ⟨fun _ _ _ h => by simp at h, fun _ _ h => by simp at h, fun _ _ h => by simp at h, fun _ _ _ h => by simp at h⟩
@@ -291,11 +331,14 @@ theorem lostOk_closed (g : Cfg) (armed edge : Bool) (q : Nat) (ps : PS) (task : 
   · subst hc
     exact ⟨h.osArmed, fun _ _ h' => (by cases h'), h.osEdge, fun _ _ h' => (by cases h')⟩
 
-/-- a live task performs its next read -/
-theorem core_taskRead (g : Cfg) (s : St) (hk : KindOk g s.k.reg s.k.rq s.k.dq)
+/-- a live task performs its next read; `h` = the hang-up flag of the round: only set if `hup` is, and if `hup` is
+    set on an open conn the round either knows (`h`) or will go round again (`re ≥ 2`) -/
+theorem core_taskRead (g : Cfg) (s : St) (h : Bool) (hk : KindOk g s.k.reg s.k.rq s.k.dq)
     (hg : GateOk g s.task s.re s.closed s.overlap) (hp : PsOk g s.ps)
-    (hl : LostOk g s.k.armed s.k.edge s.k.qlen s.ps s.task s.re s.closed) (hne : s.task ≠ .none) :
-    Core g (taskRead g s) := by
+    (hl : LostOk g s.k.armed s.k.edge s.k.qlen s.ps s.task s.re s.closed)
+    (hh : HupOk g s.hup s.k.eof s.k.rerr s.task s.re s.closed) (hne : s.task ≠ .none)
+    (H1 : h = true → s.hup = true) (H2 : s.hup = true → s.closed = false → h = true ∨ s.re ≥ 2) :
+    Core g (taskRead g s h) := by
   have hasync : g.isAsync = true := by
     cases ha : g.isAsync
     · exact absurd (hg.sync ha).1 hne
@@ -305,38 +348,44 @@ theorem core_taskRead (g : Cfg) (s : St) (hk : KindOk g s.k.reg s.k.rq s.k.dq)
   · next hc =>
     simp only [setTask]
     refine ⟨hk, ⟨hg.re2, hg.osRe, fun h => (by simp [hasync] at h), by simp, fun _ h => (by rw [hc] at h; cases h), hg.noOverlap⟩, hp,
-      ⟨fun _ _ => rfl, fun _ _ h => (by rw [hc] at h; cases h), hl.osEdge, fun _ _ h => (by rw [hc] at h; cases h)⟩⟩
+      ⟨fun _ _ => rfl, fun _ _ h => (by rw [hc] at h; cases h), hl.osEdge, fun _ _ h => (by rw [hc] at h; cases h)⟩,
+      ⟨hh.sync, hh.backed, fun a h' => (by cases h'), fun _ h' => (by rw [hc] at h'; cases h')⟩⟩
   · next hc =>
     have hc' : s.closed = false := by simpa using hc
     obtain ⟨f1, f2, f3, f4, f5, f6, f7, f8, f9, f10, f11, f12, f13, f14, f15, f16, f17, f18, f19⟩ := doRead_frame g s
     obtain ⟨q1, q2, q3, q4⟩ := doRead_queue g s hk
     have hdc := doRead_closed_iff g s
+    have fhup := doRead_hup g s
     rcases hd : doRead g s with ⟨a, s1⟩
-    rw [hd] at f1 f2 f3 f4 f5 f6 f7 f8 f9 f10 f11 f12 f13 f14 f15 f16 f17 f18 f19 q1 q2 q3 q4 hdc
-    simp only at f1 f2 f3 f4 f5 f6 f7 f8 f9 f10 f11 f12 f13 f14 f15 f16 f17 f18 f19 q1 q2 q3 q4 hdc
+    rw [hd] at f1 f2 f3 f4 f5 f6 f7 f8 f9 f10 f11 f12 f13 f14 f15 f16 f17 f18 f19 q1 q2 q3 q4 hdc fhup
+    simp only at f1 f2 f3 f4 f5 f6 f7 f8 f9 f10 f11 f12 f13 f14 f15 f16 f17 f18 f19 q1 q2 q3 q4 hdc fhup
     have hac : a ≠ .closed := fun h => by have := hdc.mp h; rw [hc'] at this; cases this
     simp only [setTask]
-    refine ⟨q3, ?_, by rw [f4]; exact hp, ?_⟩
+    refine ⟨q3, ?_, by rw [f4]; exact hp, ?_, ?_⟩
     · rw [f3, f1, f13]
-      refine ⟨hg.re2, hg.osRe, fun h => (by simp [hasync] at h), fun h => (by cases h; exact hac rfl), fun hm hcl => ?_, hg.noOverlap⟩
+      refine ⟨hg.re2, hg.osRe, fun h => (by simp [hasync] at h), fun h' hx => (by cases hx; exact hac rfl), fun hm hcl => ?_, hg.noOverlap⟩
       constructor
       · intro h; cases h
       · intro h; exact absurd ((hg.alive hm hcl).mpr h) hne
     · rw [f18, f19, f4, f3, f1]
-      refine ⟨fun hm ha => absurd (hl.osArmed hm ha) hne, fun hm _ _ => Or.inr (Or.inr (Or.inr (Or.inr ⟨a, rfl, Or.inl hm⟩))),
+      refine ⟨fun hm ha => absurd (hl.osArmed hm ha) hne, fun hm _ _ => Or.inr (Or.inr (Or.inr (Or.inr ⟨a, h, rfl, Or.inl hm⟩))),
         fun hm ha hq => hl.osEdge hm ha (by have hq' : s1.k.qlen > 0 := hq; omega), fun hm hq hcl => ?_⟩
       have hq' : s1.k.qlen > 0 := hq
       cases hag : a.again g
       · have := q4 hag hac; omega
-      · exact Or.inr (Or.inr (Or.inr (Or.inr (Or.inr ⟨a, rfl, Or.inr (Or.inl hag)⟩))))
+      · exact Or.inr (Or.inr (Or.inr (Or.inr (Or.inr ⟨a, h, rfl, Or.inr (Or.inl hag)⟩))))
+    · rw [fhup, f15, f16, f3, f1]
+      refine ⟨hh.sync, hh.backed, fun a' hx => ?_, fun hu hcl => Or.inr (Or.inr ⟨a, h, rfl, H2 hu hcl⟩)⟩
+      simp only [TS.rd.injEq] at hx
+      exact H1 hx.2
 
 theorem core_tstep (g : Cfg) (s s' : St) (h : Core g s) (hs : tstep g s = some s') : Core g s' := by
-  obtain ⟨hk, hg, hp, hl⟩ := h
+  obtain ⟨hk, hg, hp, hl, hh⟩ := h
   unfold tstep at hs
   split at hs
   · cases hs
-  · next ht => cases hs; exact core_taskRead g s hk hg hp hl (by rw [ht]; simp)
-  · next a ht =>
+  · next ht => cases hs; exact core_taskRead g s s.hup hk hg hp hl hh (by rw [ht]; simp) (fun h => h) (fun h _ => Or.inl h)
+  · next a hr ht =>
     cases hs
     have hasync : g.isAsync = true := by
       cases ha : g.isAsync
@@ -350,9 +399,10 @@ theorem core_tstep (g : Cfg) (s s' : St) (h : Core g s) (hs : tstep g s = some s
     obtain ⟨c1, c2, c3, c4, c5, c6, c7, c8, c9, c10, c11, c12⟩ := consume_frame g s a
     obtain ⟨n1, n2⟩ := consume_next g s a
     have herr := consume_err_closed g s
+    have chup := consume_hup g s a
     rcases hc : consume g s a with ⟨nx, s2⟩
-    rw [hc] at c1 c2 c3 c4 c5 c6 c7 c8 c9 c10 c11 c12 n1 n2
-    simp only at c1 c2 c3 c4 c5 c6 c7 c8 c9 c10 c11 c12 n1 n2
+    rw [hc] at c1 c2 c3 c4 c5 c6 c7 c8 c9 c10 c11 c12 n1 n2 chup
+    simp only at c1 c2 c3 c4 c5 c6 c7 c8 c9 c10 c11 c12 n1 n2 chup
     have hcl : s2.closed = s.closed ∨ s2.closed = true := by
       rcases c12 with h | ⟨_, h⟩
       · exact Or.inl h
@@ -363,16 +413,28 @@ theorem core_tstep (g : Cfg) (s s' : St) (h : Core g s) (hs : tstep g s = some s
     have hp2 : PsOk g s2.ps := by rw [c3]; exact hp
     have hl2 : LostOk g s2.k.armed s2.k.edge s2.k.qlen s2.ps s2.task s2.re s2.closed := by
       rw [c1, c3, c4, c2]; exact lostOk_closed g _ _ _ _ _ _ _ _ hl hcl
+    have hh2 : HupOk g s2.hup s2.k.eof s2.k.rerr s2.task s2.re s2.closed := by
+      rw [chup, c1, c4, c2]; exact hupOk_closed g _ _ _ _ _ _ _ hh hcl
+    -- what the invariant says about this round's flag
+    have HR1 : hr = true → s2.hup = true := by
+      intro h'; subst h'; rw [chup]; exact hh.flag a ht
+    have HR2 : s2.hup = true → s2.closed = false → hr = true ∨ s2.re ≥ 2 := by
+      intro hu hcl'
+      rcases hh2.owed hu hcl' with h' | ⟨v, h'⟩ | ⟨a', h'', h', hx⟩
+      · rw [c4, ht] at h'; cases h'
+      · rw [c4, ht] at h'; cases h'
+      · rw [c4, ht] at h'; cases h'; exact hx
     cases nx with
-    | again => exact core_taskRead g s2 hk2 hg2 hp2 hl2 (by rw [c4, ht]; simp)
+    | again => exact core_taskRead g s2 hr hk2 hg2 hp2 hl2 hh2 (by rw [c4, ht]; simp) HR1 HR2
     | dead =>
       simp only [taskNext, setTask]
       have hclosed : s2.closed = true := by
         rcases n2.mp rfl with h | h
         · subst h; rw [hc] at herr; exact herr
-        · subst h; exact absurd ht hg.noClosedAns
+        · subst h; exact absurd ht (hg.noClosedAns hr)
       refine ⟨hk2, ⟨hg2.re2, hg2.osRe, fun h => (by simp [hasync] at h), by simp, fun _ h => (by rw [hclosed] at h; cases h), hg2.noOverlap⟩, hp2,
-        ⟨fun _ _ => rfl, fun _ _ h => (by rw [hclosed] at h; cases h), hl2.osEdge, fun _ _ h => (by rw [hclosed] at h; cases h)⟩⟩
+        ⟨fun _ _ => rfl, fun _ _ h => (by rw [hclosed] at h; cases h), hl2.osEdge, fun _ _ h => (by rw [hclosed] at h; cases h)⟩,
+        ⟨hh2.sync, hh2.backed, fun a' hx => (by cases hx), fun _ h => (by rw [hclosed] at h; cases h)⟩⟩
     | brk =>
       have hna : a.again g = false := by
         cases hag : a.again g
@@ -383,11 +445,31 @@ theorem core_tstep (g : Cfg) (s s' : St) (h : Core g s) (hs : tstep g s = some s
         · exact h
         · have := n2.mpr (Or.inl h); cases this
       simp only [taskNext]
+      cases hr with
+      | true =>
+        -- the hang-up was there before this round: close
+        simp only [↓reduceIte, setTask]
+        obtain ⟨x1, x2, x3, x4, x5, x6⟩ := closeHang_frame s2
+        have xh := closeHang_hup s2
+        refine ⟨by rw [x1]; exact hk2, ?_, by rw [x3]; exact hp2, ?_, ?_⟩
+        · rw [x2, x6, x5]
+          exact ⟨hg2.re2, hg2.osRe, fun h => (by simp [hasync] at h), by simp, fun _ h => (by cases h), hg2.noOverlap⟩
+        · rw [x1, x3, x2, x6]
+          exact ⟨fun _ _ => rfl, fun _ _ h => (by cases h), hl2.osEdge, fun _ _ h => (by cases h)⟩
+        · rw [xh, x1, x2, x6]
+          exact ⟨hh2.sync, hh2.backed, fun a' hx => (by cases hx), fun _ h => (by cases h)⟩
+      | false =>
+      simp only [Bool.false_eq_true, ↓reduceIte]
+      have hnohup : s2.hup = true → s2.closed = false → s2.re ≥ 2 := fun hu hcl' => by
+        rcases HR2 hu hcl' with h | h
+        · cases h
+        · exact h
       rcases hmode with hm | hm
       · -- one-shot: re-arm and return
         simp only [hm, beq_self_eq_true, ↓reduceIte, setTask]
         obtain ⟨r1, r2, r3, r4, r5, r6, r7, r8, r9, r10, r11, r12⟩ := rearm_frame s2
-        refine ⟨by rw [r6, r7, r8]; exact hk2, ?_, by rw [r3]; exact hp2, ?_⟩
+        have rh := rearm_hup s2
+        refine ⟨by rw [r6, r7, r8]; exact hk2, ?_, by rw [r3]; exact hp2, ?_, ?_⟩
         · rw [r2, r1, r5]
           exact ⟨hg2.re2, hg2.osRe, fun h => (by simp [hasync] at h), by simp, fun h => (by rw [hm] at h; cases h), hg2.noOverlap⟩
         · rw [r9, r3, r2, r1]
@@ -396,6 +478,11 @@ theorem core_tstep (g : Cfg) (s s' : St) (h : Core g s) (hs : tstep g s = some s
           · cases hcc : s2.closed
             · exact (rearm_armed s2 hcc).2 (by rw [r9]; exact hq)
             · rw [rearm_closed s2 hcc] at ha ⊢; exact hl2.osEdge hm ha hq
+        · rw [rh, r11, r12, r2, r1]
+          refine ⟨hh2.sync, hh2.backed, fun a' hx => (by cases hx), fun hu hcl' => ?_⟩
+          have := hnohup hu hcl'
+          have := hg2.osRe hm
+          omega
       · -- ET: decrement, return iff the counter reached 0
         have hmne : (g.mode == Mode.os) = false := by rw [hm]; rfl
         simp only [hmne, Bool.false_eq_true, ↓reduceIte]
@@ -403,29 +490,33 @@ theorem core_tstep (g : Cfg) (s s' : St) (h : Core g s) (hs : tstep g s = some s
         · next h0 =>
           simp only [setTask]
           refine ⟨hk2, ⟨(by show (0:Nat) ≤ 2; omega), fun _ => rfl, fun h => (by simp [hasync] at h), by simp, fun _ _ => by simp, hg2.noOverlap⟩, hp2,
-            ⟨fun h => (by rw [hm] at h; cases h), fun h => (by rw [hm] at h; cases h), fun h => (by rw [hm] at h; cases h), fun _ hq hcl' => ?_⟩⟩
-          rcases hl2.nolostET hm hq hcl' with h' | h'
-          · exact Or.inl h'
-          · right
-            rcases h' with ⟨i, fl', h'⟩ | ⟨fl', h', hx⟩ | h' | ⟨v, h'⟩ | ⟨a', h', hx⟩
-            · exact absurd h' (hp2.asyncPs hasync i fl')
-            · exact Or.inr (Or.inl ⟨fl', h', hx⟩)
-            · rw [c4, ht] at h'; cases h'
-            · rw [c4, ht] at h'; cases h'
-            · rw [c4, ht] at h'; cases h'
-              rcases hx with hx | hx | hx
-              · rw [hm] at hx; cases hx
-              · rw [hna] at hx; cases hx
-              · omega
+            ⟨fun h => (by rw [hm] at h; cases h), fun h => (by rw [hm] at h; cases h), fun h => (by rw [hm] at h; cases h), fun _ hq hcl' => ?_⟩,
+            ⟨hh2.sync, hh2.backed, fun a' hx => (by cases hx), fun hu hcl' => ?_⟩⟩
+          · rcases hl2.nolostET hm hq hcl' with h' | h'
+            · exact Or.inl h'
+            · right
+              rcases h' with ⟨i, fl', h'⟩ | ⟨fl', h', hx⟩ | h' | ⟨v, h'⟩ | ⟨a', hr', h', hx⟩
+              · exact absurd h' (hp2.asyncPs hasync i fl')
+              · exact Or.inr (Or.inl ⟨fl', h', hx⟩)
+              · rw [c4, ht] at h'; cases h'
+              · rw [c4, ht] at h'; cases h'
+              · rw [c4, ht] at h'; cases h'
+                rcases hx with hx | hx | hx | hx
+                · rw [hm] at hx; cases hx
+                · rw [hna] at hx; cases hx
+                · omega
+                · cases hx
+          · have := hnohup hu hcl'; omega
         · next h0 =>
           simp only [setTask]
           refine ⟨hk2, ⟨(by have := hg2.re2; show s2.re - 1 ≤ 2; omega), fun h => (by rw [hm] at h; cases h), fun h => (by simp [hasync] at h), by simp, fun _ _ => ?_, hg2.noOverlap⟩, hp2,
             ⟨fun h => (by rw [hm] at h; cases h), fun h => (by rw [hm] at h; cases h), fun h => (by rw [hm] at h; cases h),
-             fun _ _ _ => Or.inr (Or.inr (Or.inr (Or.inr (Or.inl ⟨_, rfl⟩))))⟩⟩
+             fun _ _ _ => Or.inr (Or.inr (Or.inr (Or.inr (Or.inl ⟨_, rfl⟩))))⟩,
+            ⟨hh2.sync, hh2.backed, fun a' hx => (by cases hx), fun _ _ => Or.inr (Or.inl ⟨_, rfl⟩)⟩⟩
           constructor
           · intro h; cases h
           · intro h; exact absurd h h0
-  · next v ht => cases hs; exact core_taskRead g s hk hg hp hl (by rw [ht]; simp)
+  · next v ht => cases hs; exact core_taskRead g s s.hup hk hg hp hl hh (by rw [ht]; simp) (fun h => h) (fun h _ => Or.inl h)
 
 theorem core_step (g : Cfg) (s s' : St) (a : Act) (h : Core g s) (hs : step g s a = some s') : Core g s' := by
   cases a with
